@@ -31,7 +31,12 @@ Definition enter_no_grad (s : mstate) : mstate := MS (training s) false. (* with
 
 (* one recorded forward call: the training flag of every (sub-)module and the grad mode it ran
    under, and the rows of X and of every arg it got *)
-Record callrec := CR { cr_training : list bool; cr_grad : bool; cr_X : list row; cr_args : list arg }.
+(* [cr_adt]: the dtype (a code) of every arg as the model received it.  Rows hold the exact
+   values (integers scaled by a per-argument power of two), so a cast of an arg to a narrower
+   dtype shows both as a changed dtype code and, where the value is not representable, as a
+   changed row. *)
+Record callrec := CR { cr_training : list bool; cr_grad : bool; cr_X : list row; cr_args : list arg;
+                       cr_adt : list nat }.
 
 (* l[start:start+b] for 0 <= start, 1 <= b *)
 Definition window {T} (start b : nat) (l : list T) : list T := firstn b (skipn start l).
@@ -73,16 +78,18 @@ Section Predict.
 
   (* the loop body for every start of range(0, n, b): X[start:end] and a[start:end] for every
      arg with the SAME (start, end).  (`if X_.shape[0] == 0: continue` cannot trigger: start < n.) *)
-  Definition forward_all (s : mstate) (b : nat) (X : list row) (args : list arg)
+  (* args are sliced and moved to the device, nothing else: they keep their dtype [adt] (only X
+     is cast to the parameters' dtype) *)
+  Definition forward_all (s : mstate) (b : nat) (X : list row) (args : list arg) (adt : list nat)
     : list (yval * callrec) :=
     map (fun start =>
            let Xw := window start b X in
            let Aw := map (window start b) args in
-           (g (training s) (grad s) Xw Aw, CR (training s) (grad s) Xw Aw))
+           (g (training s) (grad s) Xw Aw, CR (training s) (grad s) Xw Aw adt))
         (starts (length X) b).
 
   (* returns the value (or "raised") and the trace of forward calls made *)
-  Definition predict_model (s0 : mstate) (b : Z) (X : list row) (args : list arg)
+  Definition predict_model (s0 : mstate) (b : Z) (X : list row) (args : list arg) (adt : list nat)
     : res yval * list callrec :=
     let s1 := set_eval s0 in
     if negb (forallb (fun a => (length a =? length X)%nat) args) then (Err, [])  (* ValueError *)
@@ -93,7 +100,7 @@ Section Predict.
          y[0] raises IndexError *)
       if b' <=? 0 then (Err, [])
       else
-        let calls := forward_all s2 (Z.to_nat b') X args in
+        let calls := forward_all s2 (Z.to_nat b') X args adt in
         (cat_outputs (map fst calls), map snd calls).
 End Predict.
 
